@@ -65,8 +65,9 @@ def base_session(version):
 
 class Sc:
     def __init__(self, name, stage, items, version=2, timeout_ms=0, handlers=(), decode_h=(), panic_h=(), default=False, wd=400,
-                 must_succeed=(), cancelled=()):
+                 must_succeed=(), cancelled=(), pred_only=False):
         self.name, self.stage, self.items = name, stage, items
+        self.pred_only = pred_only      # the decoders' verdict on the payload is not predicted: no comparison with the model
         self.must_succeed, self.cancelled = list(must_succeed), list(cancelled)
         self.version, self.timeout_ms = version, timeout_ms
         self.handlers, self.decode_h, self.panic_h, self.default, self.wd = list(handlers), list(decode_h), list(panic_h), default, wd
@@ -98,6 +99,8 @@ class Sc:
                 steps.append(dict(op="user_send", name=it[1], typ=it[2]))
             elif it[0] == "user_shutdown":
                 steps.append(dict(op="user_shutdown", name=it[1]))
+            elif it[0] == "user_sendfor":
+                steps.append(dict(op="user_sendfor", name=it[1]))
             elif it[0] == "raw":
                 steps.append(dict(op="write", hex=it[1].hex()))
             elif it[0] == "rest":            # the remainder of a frame that was cut at it[2]
@@ -120,7 +123,7 @@ class Sc:
     def ids(self):
         out, n = {}, 0
         for it in self.items:
-            if it[0] in ("expect", "user_send", "user_shutdown"):
+            if it[0] in ("expect", "user_send", "user_shutdown", "user_sendfor"):
                 out[it[1]] = n
                 n += 1
             # ("user_send_blind"): the writer is blocked, the request is never written nor registered
@@ -149,7 +152,7 @@ class Sc:
         for it in self.items:
             if it[0] == "expect":
                 pend_neg = True
-            elif it[0] == "user_send":
+            elif it[0] in ("user_send", "user_sendfor"):
                 pend_users += "s"
             elif it[0] == "user_shutdown":
                 pend_users += "d"
@@ -183,9 +186,90 @@ class Sc:
 NEVER_REPLY = []
 
 
+# ---- well-formed parameter bytes with the positions of their inner length / count fields
+def _cat(parts):
+    """parts: bytes or (bytes, [offsets of 16-bit inner length fields]) -> (bytes, offsets)"""
+    out, offs = b"", []
+    for p in parts:
+        if isinstance(p, tuple):
+            offs += [len(out) + o for o in p[1]]
+            out += p[0]
+        else:
+            out += p
+    return out, offs
+
+
+def tlv(typ, *parts):
+    body, offs = _cat(parts)
+    return struct.pack(">HH", typ, 4 + len(body)) + body, [2] + [4 + o for o in offs]
+
+
+def lstr(s):
+    return struct.pack(">H", len(s)) + s, [0]
+
+
+def status_msg(code, desc, after=b""):
+    return _cat([tlv(287, struct.pack(">H", code), lstr(desc), after)])
+
+
+def corruptions(msg):
+    """every inner length field set to v-2, v-1, v+1, v+2, 0, 65535; the bytes stay, so do the outer lengths"""
+    b, offs = msg
+    for o in offs:
+        v = struct.unpack(">H", b[o:o + 2])[0]
+        for nv in sorted(set([v - 2, v - 1, v + 1, v + 2, 0, 65535])):
+            if 0 <= nv <= 65535 and nv != v:
+                yield "o%d-%d" % (o, nv), b[:o] + struct.pack(">H", nv) + b[o + 2:]
+
+
+def inner_length_scenarios(thorough):
+    """C10 'no goroutine panics, whatever the bytes': well-formed messages that contain strings, arrays and nested
+    TLVs, delivered at every stage at which the CLIENT ITSELF decodes them (first message, both negotiation replies,
+    reply to SendFor, reply to Shutdown) and to a decoding handler, with each inner length field corrupted while the
+    outer lengths stay consistent; the corrupted field is the last thing in the buffer in one base message and is
+    followed by more bytes in another."""
+    ts = tlv(128, bytes(8))
+    exc = tlv(252, lstr(b"boom"))
+    exc_more = tlv(252, lstr(b"boom"), bytes([0x89, 0, 0, 0, 7]))           # + ROSpecID (TV)
+    conn = tlv(256, struct.pack(">H", 0))
+    rens = [("exc-last", _cat([tlv(246, ts, conn, exc)])), ("exc-mid", _cat([tlv(246, ts, exc_more, conn)]))]
+    field_err = tlv(288, struct.pack(">HH", 3, 100))
+    stats = [("desc-last", status_msg(0, b"all good")), ("desc-mid", status_msg(0, b"hm", field_err)),
+             ("err-desc-last", status_msg(110, b"unsupported version"))]
+    gdc_fixed = struct.pack(">HHII", 4, 0x8000, 25882, 1)
+    caps = [("fw-last", _cat([status_msg(0, b""), tlv(137, gdc_fixed, lstr(b"firmware-16-bytes"))])),
+            ("fw-mid", _cat([status_msg(0, b"ok"), tlv(137, gdc_fixed, lstr(b"fw1.0"), tlv(139, struct.pack(">HH", 1, 0)),
+                                                        tlv(141, struct.pack(">HH", 4, 4)))]))]
+    first_ok = F(63, REN_PL, ver=1)
+    neg = [first_ok, ("expect", "gsv", 46), F(56, gsv_pl(1, 2, 0), to="gsv"), ("expect", "spv", 47), F(57, st_param(0), to="spv")]
+    out = []
+
+    def add(stage, tag, items, **kw):
+        out.append(Sc("inner-length/%s/%s" % (stage, tag), stage, items, pred_only=True, **kw))
+    for bname, m in rens:
+        for cname, b in corruptions(m):
+            add("first", "%s/%s" % (bname, cname), [F(63, b, ver=1)], version=2)
+            add("unsolicited", "%s/%s" % (bname, cname), neg + [F(63, b, mid=9), F(30, b"abc", mid=5)], version=2, decode_h=[63])
+    for bname, m in stats:
+        for cname, b in corruptions(m):
+            gs = bytes([1 << 5, 2 << 5]) + b
+            add("gsv", "%s/%s" % (bname, cname), neg[:2] + [F(56, gs, to="gsv")], version=2)
+            add("gsv", "errmsg-%s/%s" % (bname, cname), neg[:2] + [F(100, b, to="gsv")], version=2)
+            add("spv", "%s/%s" % (bname, cname), neg[:4] + [F(57, b, to="spv")], version=2)
+            add("shutdown", "%s/%s" % (bname, cname), neg + [("user_shutdown", "sd"), F(4, b, to="sd")], version=2)
+            add("sendfor", "errmsg-%s/%s" % (bname, cname), [F(63, REN_PL, ver=1), ("user_sendfor", "sf"), F(100, b, to="sf", ver=1)], version=1)
+    for bname, m in caps:
+        for cname, b in corruptions(m):
+            add("sendfor", "%s/%s" % (bname, cname), [F(63, REN_PL, ver=1), ("user_sendfor", "sf"), F(11, b, to="sf", ver=1)], version=1)
+    # the uncorrupted base messages, to show the stages are reached with accepted input
+    add("sendfor", "base", [F(63, REN_PL, ver=1), ("user_sendfor", "sf"), F(11, caps[1][1][0], to="sf", ver=1)], version=1, must_succeed=["sf"])
+    add("first", "base", [F(63, rens[1][1][0], ver=1), ("user_sendfor", "sf"), F(11, caps[1][1][0], to="sf", ver=1)], version=1, must_succeed=["sf"])
+    return out
+
+
 def scenarios(tier, rnd):
     thorough = tier == "thorough"
-    out = []
+    out = inner_length_scenarios(thorough)
     for version in (2, 1):
         base = base_session(version)
         out.append(Sc("valid/v%d" % version, "valid", [it for _, it in base], version))
@@ -572,7 +656,7 @@ def probe_flags(exe):
     del NEVER_REPLY[:]
     if 4 not in crashed and ((ans.get(4, {}).get("users") or [{}])[0].get("err") != "nil"):
         NEVER_REPLY.extend([61, 62, 63])
-    return f0 + f1 + f2 + f3, probes, ans, crashes
+    return f0 + f1 + f2 + f3 + "0", probes, ans, crashes      # 5th flag (first message to the default handler): not observable here
 
 
 FLAG_NAMES = ["data_checks_size_first", "gsv_uses_checked_read", "neg_aborts_on_loop_end", "close_wait_only_if_sent"]
@@ -659,7 +743,7 @@ def run(tier, seed, replay=None):
         if go is not None:
             ms_by[fam + ":" + sc.stage] = ms_by.get(fam + ":" + sc.stage, 0) + go.get("ms", 0)
         fails = property_check(sc, go, cl)
-        diffs = compare(sc, go, cl, model)
+        diffs = [] if sc.pred_only else compare(sc, go, cl, model)
         if len(samples) < 5 and fam in ("length", "trunc", "type") and evals % 37 == 0:
             samples.append(dict(scenario=sc.to_json(), go=go, model=olines[i][:500]))
         for sig, text in fails:
